@@ -84,16 +84,43 @@ def run(prop, args, seed, repo, t0):
         shutil.rmtree(tmpdir, ignore_errors=True)
 
 
+def _replay_child(check, prop, v, tmpdir, conn):
+    try:
+        cfg = dict(v.get('case', {}).get('cfg', {}) or {})
+        cfg['tmpdir'] = tmpdir
+        os.environ['TMPDIR'] = tmpdir
+        check.init_worker(cfg)
+        ctx = harness.Ctx(prop)
+        check.replay(ctx, v['case'])
+        res = ctx.result()
+        res['outcomes'] = []
+        conn.send(('ok', res))
+    except BaseException:
+        import traceback
+        conn.send(('error', traceback.format_exc()))
+
+
 def do_replay(check, prop, path, tmpdir):
+    import multiprocessing as mp
     with open(path) as f:
         v = json.load(f)
-    cfg = dict(v.get('case', {}).get('cfg', {}) or {})
-    cfg['tmpdir'] = tmpdir
-    os.environ['TMPDIR'] = tmpdir
-    check.init_worker(cfg)
-    ctx = harness.Ctx(prop)
-    check.replay(ctx, v['case'])
-    res = ctx.result()
+    # the replay runs in a child so that an input on which the library never returns can be reported
+    ctx = mp.get_context('fork')
+    parent, child = ctx.Pipe()
+    p = ctx.Process(target=_replay_child, args=(check, prop, v, tmpdir, child))
+    p.start()
+    limit = float(os.environ.get('MC_REPLAY_TIMEOUT', 300))
+    if parent.poll(limit):
+        status, res = parent.recv()
+        p.join(10)
+    else:
+        p.kill()
+        p.join()
+        print("replayed violation: the library did not return within %.0f s on this input" % limit)
+        print("VIOLATION property=%s replay=%s" % (prop, path))
+        return 1
+    if status == 'error':
+        raise harness.HarnessError("replay failed:\n" + res)
     if res['total_violations']:
         for vv in res['violations']:
             print("replayed violation: clause=%s site=%s observed=%s expected=%s %s" % (
@@ -115,7 +142,10 @@ def do_check(check, modname, prop, args, seed, tmpdir, t0):
         cfg['seed'] = seed
         cfg['tier'] = args.tier
         tp = time.time()
-        res = harness.run_pool(modname, cfg, ph['shards'], args.workers)
+        try:
+            res = harness.run_pool(modname, cfg, ph['shards'], args.workers)
+        except harness.Hang as h:
+            return report_hang(prop, h, args, seed, t0, ph['name'])
         merged_ph = harness.merge(res)
         phase_info.append({'name': ph['name'], 'shards': len(ph['shards']), 'executions': merged_ph['evals'],
                            'cases': merged_ph['cases'], 'wall_s': round(time.time() - tp, 1),
@@ -182,6 +212,32 @@ def do_check(check, modname, prop, args, seed, tmpdir, t0):
             print("VIOLATION property=%s replay=%s" % (prop, p))
         return 1
     return 0
+
+
+def report_hang(prop, h, args, seed, t0, phase):
+    """The library did not return on some input(s): a violation of every property (each one promises a result)."""
+    real = [c for c in h.cases if not (isinstance(c, dict) and 'note' in c)]
+    if not real:
+        raise harness.HarnessError("a worker made no progress but had not started an execution: %r" % (h.cases,))
+    known = harness.load_known(prop)
+    code = 0
+    for c in real:
+        v = {'property': prop, 'clause': 'no-termination', 'site': 'no-termination', 'case': c,
+             'observed': 'the library did not return (worker stuck on this execution; pool killed)', 'expected': 'a result'}
+        e = harness.match_known(v, known)
+        if e is not None:
+            print("KNOWN-FINDING: property=%s %s" % (prop, e.get('what', '?')))
+            continue
+        path = harness.write_violation(v)
+        print("   no-termination: %s" % json.dumps(c)[:300])
+        print("VIOLATION property=%s replay=%s" % (prop, path))
+        code = 1
+    if not args.no_evidence:
+        harness.write_evidence(prop, args.tier, seed, {
+            'states': 1, 'transitions': 1, 'traces_validated_against_impl': 1, 'samples': real[:3],
+            'exhaustive': False, 'rule': 'run aborted in phase %s: the library did not return on the sampled input(s)' % phase},
+            ['run aborted by a hang'], time.time() - t0, len(real))
+    return code
 
 
 if __name__ == '__main__':
